@@ -45,7 +45,9 @@ Record mstate := mkM {
   m_fillattr : option Z;   (* the _FillValue attribute *)
   m_dfill : Z;             (* NC_arrayfill value of the type *)
   m_nofill : bool;         (* handle->flags & NC_NOFILL *)
-  m_store : list cell      (* the data element, one entry per stored number; its length is elem_length / esz *)
+  m_store : list cell;     (* the data element, one entry per stored number; its length is elem_length / esz *)
+  m_recsize : Z            (* handle->recsize: 0 in the creating session, after an open the sum of the lengths of
+                              the file's record variables (NC_computeshapes) *)
 }.
 
 Definition is_recvar (m : mstate) : bool :=
@@ -77,7 +79,7 @@ Definition write_cells (st : list cell) (idx : Z) (vals : list cell) : list cell
   firstn i st ++ repeat Undef (i - length st) ++ vals ++ skipn (i + n) st.
 
 Definition set_store (m : mstate) (st : list cell) (nr : Z) : mstate :=
-  mkM (m_shape m) (m_esz m) nr (m_fillattr m) (m_dfill m) (m_nofill m) st.
+  mkM (m_shape m) (m_esz m) nr (m_fillattr m) (m_dfill m) (m_nofill m) st (m_recsize m).
 
 (* ---- NCcoordck ------------------------------------------------------------------------------ *)
 Fixpoint any2 (f : Z -> Z -> Z) (a b : list Z) : bool :=
@@ -269,7 +271,8 @@ Definition vario (writing : bool) (start edges : list Z) (a : io_acc) : bool * i
       | None => (false, a)
       | Some (m1, tr1) =>
           let a1 := mkAcc m1 (acc_tr a ++ tr1) (acc_cells a) (acc_vals a) in
-          if is_recvar m1 && (length (m_shape m1) =? 1)%nat then simplerecio writing start edges a1
+          if is_recvar m1 && (length (m_shape m1) =? 1)%nat && (m_recsize m1 <=? var_len m1)
+          then simplerecio writing start edges a1   (* one-dimensional and the only record variable *)
           else
             match vario_plan m1 start edges with
             | None => (false, a1)
@@ -360,7 +363,7 @@ Definition sd_read (m : mstate) (us : bool) (start stride count : list Z) : msta
     (acc_m a', MRead (if ok then 0 else -1) (acc_cells a') (acc_tr a')).
 
 Definition m_init (shape : list Z) (unlim : bool) (nt : Z) : mstate :=
-  mkM shape (match nt_size nt with Some s => s | None => 1 end) 0 None (default_fill nt) false [].
+  mkM shape (match nt_size nt with Some s => s | None => 1 end) 0 None (default_fill nt) false [] 0.
 
 Definition ceil_div (a b : Z) : Z := (a + b - 1) / b.
 
@@ -368,8 +371,8 @@ Definition m_step (m : mstate) (o : op) : mstate * mout :=
   match o with
   | OpMode md =>
       let nf := if md =? NC_NOFILL then true else if md =? NC_FILL then false else m_nofill m in
-      (mkM (m_shape m) (m_esz m) (m_numrecs m) (m_fillattr m) (m_dfill m) nf (m_store m), MNone)
-  | OpFillv v => (mkM (m_shape m) (m_esz m) (m_numrecs m) (Some v) (m_dfill m) (m_nofill m) (m_store m), MNone)
+      (mkM (m_shape m) (m_esz m) (m_numrecs m) (m_fillattr m) (m_dfill m) nf (m_store m) (m_recsize m), MNone)
+  | OpFillv v => (mkM (m_shape m) (m_esz m) (m_numrecs m) (Some v) (m_dfill m) (m_nofill m) (m_store m) (m_recsize m), MNone)
   | OpBlock _ => (m, MNone)
   | OpWrite us start stride count vals => sd_write m us start stride count vals
   | OpRead us start stride count => sd_read m us start stride count
@@ -379,7 +382,7 @@ Definition m_step (m : mstate) (o : op) : mstate * mout :=
   | OpReopen =>
       (* hdf_read_vars: numrecs from the length of the data element; the fill mode is per session *)
       let nr := if is_recvar m then ceil_div (elem_length m) (hd 1 (dsizes m)) else m_numrecs m in
-      (mkM (m_shape m) (m_esz m) nr (m_fillattr m) (m_dfill m) false (m_store m), MNone)
+      (mkM (m_shape m) (m_esz m) nr (m_fillattr m) (m_dfill m) false (m_store m) (m_recsize m), MNone)
   end.
 
 Fixpoint m_run (m : mstate) (ops : list op) : list mout :=
@@ -387,3 +390,9 @@ Fixpoint m_run (m : mstate) (ops : list op) : list mout :=
   | [] => []
   | o :: r => let (m', out) := m_step m o in out :: m_run m' r
   end.
+
+(** file level: what NC_computeshapes leaves in handle->recsize when a file is opened, and its effect on a variable *)
+Definition file_recsize (ms : list mstate) : Z :=
+  fold_right (fun m acc => if is_recvar m then var_len m + acc else acc) 0 ms.
+Definition m_set_recsize (m : mstate) (rs : Z) : mstate :=
+  mkM (m_shape m) (m_esz m) (m_numrecs m) (m_fillattr m) (m_dfill m) (m_nofill m) (m_store m) rs.
